@@ -30,7 +30,7 @@ SPECS: Dict[str, Set[str]] = {
     "Alignment.__iter__": {"iter(self.unitary_alignments)"},
     "Alignment.num_annotators": {"len(self.unitary_alignments[0].n_tuple)"},
 }
-GENERATORS = ("Continuum.__iter__", "Continuum.iter_annotator")
+GENERATORS = ("Continuum.__iter__", "Continuum.iter_annotator", "Continuum.copy_flush")
 
 
 def _single_return(f) -> Optional[ast.AST]:
@@ -80,6 +80,30 @@ def check_accessor(ctx: Ctx, qn: str, rule: str = "R-SUP") -> None:
                 for n in ast.walk(loops[1])) and norm(loops[1].iter) == norm(loops[0].target.elts[1]) and \
             not any(isinstance(n, (ast.If, ast.Break, ast.Continue, ast.Return)) for n in walk_no_nested(f.node))
         ctx.check(ok, rule, f, loops[0] if loops else None, "__iter__ yields every (annotator, unit) in dictionary-then-set order", key="iter")
+        return
+    if qn == "Continuum.copy_flush":
+        # a fresh Continuum carrying the scalar settings only: no annotator, no unit, no category comes along
+        news = [s for s in walk_no_nested(f.node) if isinstance(s, ast.Assign) and len(s.targets) == 1 and isinstance(s.targets[0], ast.Name) and
+                isinstance(s.value, ast.Call) and norm(s.value.func) in ("Continuum", "type(self)", f"{sn}.__class__", "self.__class__")]
+        rets = [r for r in walk_no_nested(f.node) if isinstance(r, ast.Return)]
+        if len(news) != 1 or len(rets) != 1 or norm(rets[0].value) != news[0].targets[0].id:
+            ctx.undecided(rule, f, None, "copy_flush is not `c = Continuum(...); <scalar settings>; return c` (not a verdict)", key="copy-flush", construct="copy_flush")
+            return
+        nv = news[0].targets[0].id
+        fills = [c for c in walk_no_nested(f.node) if isinstance(c, ast.Call) and isinstance(c.func, ast.Attribute) and norm(c.func.value).split(".")[0] == nv and
+                 c.func.attr in ("add", "add_annotator", "add_annotation", "add_timeline", "merge", "add_textgrid", "add_elan")]
+        stores = [s for s in walk_no_nested(f.node) if isinstance(s, (ast.Assign, ast.AugAssign)) for t in (s.targets if isinstance(s, ast.Assign) else [s.target])
+                  for x in ([t] if not isinstance(t, ast.Tuple) else t.elts) if isinstance(x, (ast.Attribute, ast.Subscript)) and norm(x).split(".")[0].split("[")[0] == nv
+                  and norm(x) not in (f"{nv}.bound_inf", f"{nv}.bound_sup", f"{nv}.best_window_size", f"{nv}.uri")]
+        extra_args = [a for a in list(news[0].value.args[1:]) + [k.value for k in news[0].value.keywords if k.arg != "uri"]]
+        if fills:
+            ctx.bad(rule, f, fills[0], f"copy_flush puts annotators / units into the continuum it returns (`{norm(fills[0])[:70]}`): a sample built on it starts with them, "
+                    f"next to the annotators the sampler adds", key="copy-flush")
+        elif stores or extra_args:
+            ctx.undecided(rule, f, (stores or [news[0]])[0], "copy_flush hands more than the scalar settings (uri, bounds, window size) to the new continuum (not a verdict)",
+                          key="copy-flush")
+        else:
+            ctx.ok(rule, f, news[0], "copy_flush returns a fresh continuum without annotators, units or categories (scalar settings only)", key="copy-flush")
         return
     if qn == "Continuum.iter_annotator":
         loops = [n for n in walk_no_nested(f.node) if isinstance(n, ast.For)]
